@@ -110,6 +110,26 @@ fn gen_sig_plain(r: &mut Rng) -> GSig {
 }
 
 fn gen_line(r: &mut Rng, allow_empty: bool) -> Vec<u8> {
+    // CR-terminated lines (armour produced with CRLF line ends), CR inside a line, a lone CR
+    match r.below(7) {
+        0 => {
+            let mut l = gen_line_plain(r, allow_empty);
+            l.push(b'\r');
+            return l;
+        }
+        1 => {
+            return match r.below(4) {
+                0 => b"\r".to_vec(),
+                1 => b"a\rb".to_vec(),
+                2 => b"\r\r".to_vec(),
+                _ => b"\rx\r".to_vec(),
+            }
+        }
+        _ => {}
+    }
+    gen_line_plain(r, allow_empty)
+}
+fn gen_line_plain(r: &mut Rng, allow_empty: bool) -> Vec<u8> {
     match r.below(10) {
         0 if allow_empty => vec![],
         1 => b" leading space".to_vec(),
@@ -143,7 +163,7 @@ fn gen_extra(r: &mut Rng, first_and_no_encoding: bool) -> GExtra {
     GExtra { name, first, conts: (0..n).map(|_| gen_line(r, true)).collect() }
 }
 fn gen_message(r: &mut Rng) -> Vec<u8> {
-    match r.below(14) {
+    match r.below(17) {
         0 => vec![],
         1 => b"\n".to_vec(),
         2 => b"subject".to_vec(),
@@ -155,7 +175,9 @@ fn gen_message(r: &mut Rng) -> Vec<u8> {
         8 => b"tree 1234\nparent x\nauthor looks like a header\n".to_vec(),
         9 => b" starts with a space\n continued\n".to_vec(),
         10 => b"-----BEGIN PGP SIGNATURE-----\nnot after a line break\n".to_vec(),
-        _ => r.word(b"ab \n\t.-", 0, 24),
+        11 => b"subject\r\n\r\nbody\r\n".to_vec(),
+        12 => b"\r".to_vec(),
+        _ => r.word(b"ab \n\t.-\r", 0, 24),
     }
 }
 fn rand_id(r: &mut Rng) -> Vec<u8> {
@@ -197,7 +219,7 @@ fn gen_commit(r: &mut Rng, plain: bool) -> GCommit {
     };
     let encoding = match r.below(6) {
         0 => Some(b"ISO-8859-1".to_vec()),
-        1 => Some(r.word(b"ab -8", 1, 6)),
+        1 => Some(r.word(b"ab -8\r", 1, 6)),
         _ => None,
     };
     let nx = match r.below(6) {
@@ -223,6 +245,14 @@ fn gen_commit(r: &mut Rng, plain: bool) -> GCommit {
 
 const TAG_NAMES: &[&[u8]] = &[b"v1.0", b"a/b", b"t", b"1", b"a-b", b"\xc3\xbc", b"release/2024.01", b"x@y", b"a.b.c", b"v1.0-rc1+build", b"a{b}"];
 fn gen_pgp(r: &mut Rng) -> Vec<u8> {
+    if r.chance(1, 4) {
+        // CRLF line ends throughout
+        let mut p = PGP_BEGIN.to_vec();
+        p.extend_from_slice(b"\r\n\r\niQEzBAABCAAdFiEE\r\n=AbCd\r\n");
+        p.extend_from_slice(PGP_END);
+        p.extend_from_slice(if r.chance(1, 2) { b"\r\n" } else { b"\r" });
+        return p;
+    }
     let mut p = PGP_BEGIN.to_vec();
     match r.below(5) {
         0 => p.extend_from_slice(b"\n\niQEzBAABCAAdFiEE\n=AbCd\n"),
@@ -230,7 +260,7 @@ fn gen_pgp(r: &mut Rng) -> Vec<u8> {
         2 => p.extend_from_slice(b"\nVersion: x\n\nabc\n"),
         _ => {
             p.push(b'\n');
-            p.extend_from_slice(&r.word(b"ab\n =", 0, 20));
+            p.extend_from_slice(&r.word(b"ab\n =\r", 0, 20));
         }
     }
     p.extend_from_slice(PGP_END);
@@ -461,6 +491,21 @@ fn boundary() -> Vec<Case> {
         c.encoding = Some(b"ISO-8859-1".to_vec());
         out.push(commit_case(&c));
     }
+    {
+        // armour and merge tags produced with CRLF line ends: every folded line ends in CR
+        let crsig: &[&[u8]] = &[b"\r", b"iQEzBAABCAAdFiEE\r", b"=AbCd\r", b"-----END PGP SIGNATURE-----\r"];
+        let mut c = base.clone();
+        c.extra = vec![
+            x(b"mergetag", b"object 1234\r", &[b"type commit\r", b"tag v1\r", b"\r", b"msg\r"]),
+            x(b"gpgsig", b"-----BEGIN PGP SIGNATURE-----\r", crsig),
+            x(b"x", b"single\r", &[]),
+            x(b"y", b"a\rb", &[b"c\rd", b"\r\r"]),
+        ];
+        c.message = b"subject\r\n\r\nbody\r\n".to_vec();
+        out.push(commit_case(&c));
+        c.encoding = Some(b"ISO-8859-1\r".to_vec());
+        out.push(commit_case(&c));
+    }
     for m in [&b""[..], b"\n", b"x", b"x\n", b"\n\nx", b"\xff\x00"] {
         let mut c = base.clone();
         c.message = m.to_vec();
@@ -498,6 +543,9 @@ fn boundary() -> Vec<Case> {
         (b"", Some([PGP_BEGIN, b"\nabc\n", PGP_END, b"\n"].concat())),
         (b"m\n", Some([PGP_BEGIN, PGP_END].concat())),
         (b"m", Some([PGP_BEGIN, b"\n", PGP_END, b"\ntrailing"].concat())),
+        (b"m\r", Some([PGP_BEGIN, b"\r\n\r\nabc\r\n", PGP_END, b"\r\n"].concat())),
+        (b"subject\r\n\r\nbody\r", Some([PGP_BEGIN, b"\r\nabc\r\n", PGP_END, b"\r"].concat())),
+        (b"crlf body\r\n", None),
         (b"", None),
         (b"\n", None),
         (b"-----BEGIN PGP SIGNATURE-----\nx", None),
